@@ -34,7 +34,7 @@ def gates(c, tier):
     for lf in LENFORMS[1:]:
         if c.get("freedom:" + lf, 0) == 0:
             out.append(f"length form {lf} never applied")
-    for k in ("freedom:TRUE!=ff", "freedom:explicit-default:criticality", "freedom:explicit-default:dnAttributes", "freedom:trailing", "freedom:empty-controls-element", "freedom:trailing-envelope-[10]", "freedom:trailing-after-all-components",
+    for k in ("freedom:TRUE!=ff", "freedom:explicit-default:criticality", "freedom:explicit-default:dnAttributes", "freedom:trailing", "freedom:unknown-substring-alternative-at-the-end", "freedom:empty-controls-element", "freedom:trailing-envelope-[10]", "freedom:trailing-after-all-components",
               "ad-style-all-84", "via:unpack", "via:receive", "via:receive-two-pieces", "systematic"):
         if c.get(k, 0) == 0:
             out.append(f"never applied: {k}")
@@ -192,6 +192,14 @@ def apply_random(root, r, acc_count, p_len=0.35, p_trail=0.25, a=None):
                 acc_count("freedom:TRUE!=ff")
                 depths.add(d)
                 nfree += 1
+        if n.kind == "SEQOF-SUBSTRINGS" and n.children and r.random() < p_trail / 2:
+            # substring CHOICE { initial [0], any [1], final [2], ... }: an alternative this version does not know, after
+            # the last known one (the library skips such elements)
+            n.children.append(ber.Node(ber.CTX, r.random() < 0.3, r.choice([3, 4, 9, 30, 31, 99]), content=r.randbytes(r.choice([0, 2])), kind="TRAIL") if r.random() < 0.7
+                              else ber.Node(ber.PRIV, False, r.randrange(0, 5), content=b"x", kind="TRAIL"))
+            acc_count("freedom:unknown-substring-alternative-at-the-end")
+            depths.add(d)
+            nfree += 1
         if n.kind == "SEQ" and n.children is not None and r.random() < p_trail:
             for _ in range(r.choice([1, 1, 2])):
                 t10 = envelope_trailing(r, a) if (d == 0 and r.random() < 0.35) else None
